@@ -8,8 +8,8 @@ Local Open Scope string_scope.
 
 (* in cli.update the options are merged first and the dry return comes before the update proper *)
 Theorem c10_order_update :
-  restrict (lits ["_parse_vcs_options"; "_update_cfg_from_vcs"; "<if dry: return>"; "_try_update"]) ORDER_CLI_UPDATE
-  = lits ["_parse_vcs_options"; "_update_cfg_from_vcs"; "<if dry: return>"; "_try_update"].
+  restrict (lits ["_parse_vcs_options"; "<if dry: return>"; "_try_update"]) ORDER_CLI_UPDATE
+  = lits ["_parse_vcs_options"; "<if dry: return>"; "_try_update"].
 Proof. vm_compute. reflexivity. Qed.
 
 (* in cli._update: dirty check, rewrite, then the VCS steps *)
